@@ -298,13 +298,18 @@ def gen_multi(run, C, B):
         f, ofn = getattr(B, name), getattr(O, name)
         for m in range(2, 7):
             ns = sorted({m, m + 1, m + 4, rng.randint(m, 30), 30}) if not run.thorough else list(range(m, 31))
+            if m == 3:
+                ns = sorted(set(ns) | {7})
             for n in ns:
-                for rep in range(reps):
+                for rep in range(reps + (1 if (m, n) == (3, 7) else 0)):
                     x = [rng.uniform(0, 1) for _ in range(n)]
                     if rep == 0:
                         x = x[:m - 1] + [0.5] * (n - m + 1)      # on the optimal front of DTLZ1-5
                     if rep == 1:
                         x = [rng.choice([0.0, 1.0, 0.5]) for _ in range(n)]
+                    if rep == reps:
+                        # corpus: the reconnaissance witness of the repaired dtlz5/dtlz6 defect (norm 0.7676 instead of 1.1)
+                        x = [0.1, 0.2, 0.3, 0.4, 0.5, 0.6, 0.7]
                     extra, nums = (), []
                     if name == "dtlz4":
                         alpha = rng.choice([100, 100.0, 1, 2.0, 10])
